@@ -6,10 +6,21 @@ bounds (text), stubs (list).
 """
 
 def K(crate, filters, tier="quick", timeout_s=600, cbmc_args=None, features=None, functions=None,
-      bounds="", stubs=None, jobs=16, gen=None, extra_kani=None):
+      bounds="", stubs=None, jobs=16, gen=None, extra_kani=None, expect_fail=None):
     return dict(engine="kani", crate=crate, filters=filters, tier=tier, timeout_s=timeout_s,
                 cbmc_args=cbmc_args or [], features=features, functions=functions or [], bounds=bounds,
-                stubs=stubs or [], jobs=jobs, gen=gen, extra_kani=extra_kani or [])
+                stubs=stubs or [], jobs=jobs, gen=gen, extra_kani=extra_kani or [], expect_fail=expect_fail)
+
+
+def X(kind, tier="quick", **kw):
+    d = dict(engine="misc", kind=kind, tier=tier, filters=["misc:" + kind])
+    d.update(kw)
+    return d
+
+
+def _gen_abi():
+    from . import genabi
+    genabi.main()
 
 def M(lemmas, select, tier="quick", timeout_s=1800, bounds=""):
     return dict(engine="mirsym", lemmas=lemmas, select=select, tier=tier, timeout_s=timeout_s, bounds=bounds, filters=["mirsym:" + "+".join(lemmas)])
@@ -242,3 +253,84 @@ PROPS["C17"] = dict(
     ],
     assumptions=MIRSYM_ASSUME,
 )
+
+PROPS["C18"] = dict(
+    title="Truncation / extension monotonicity",
+    engine="kani+mirsym",
+    technique="bounded model checking (Kani/CBMC, SAT): differential of the same accessor on a file and on its prefix with a fully symbolic header argument; stream side by engine B (z3)",
+    level_text="For a 128-byte file and each enumerated proper prefix (quick: 64, 65, 100, 127 of 128 and 90 of 128 ELF32-BE; thorough: every cut point at once as a symbolic length) the solver decides for ALL header values that "
+               "section_data / segment_data (thorough: string-table and note views) on the prefix return Err or exactly the full file's answer (same file offset, length, compression header). Read the other way this is the appended-bytes clause. "
+               "Stream parser: engine B decides that load_bytes on a fault-free stream returns Ok iff range_end <= stream length (so a shorter stream can only turn answers into errors).",
+    level_note="Bound: file 128 bytes (contents constant; the ranges are what is symbolic), prefixes enumerated in the quick tier. Header-table location under truncation follows from C05's Ok-iff-fits characterisation. usize = 64 bit.",
+    groups=[
+        K("core", ["c18::"], functions=["ElfBytes::minimal_parse", "ElfBytes::section_data", "ElfBytes::segment_data", "get_data_range", "get_file_data_range", "ReadBytesExt::get_bytes"],
+          bounds="full file 128 bytes constant, prefixes {64,65,100,127} (ELF64-LE) and {90} (ELF32-BE) constant; header argument fully symbolic", timeout_s=900),
+        M(["L1"], ["C18."], bounds="all u64 ranges, stream length symbolic"),
+        K("core", ["c18t::"], tier="thorough", functions=["same + section_data_as_strtab/get_raw"], bounds="cut point symbolic 0..127", timeout_s=3000, jobs=4),
+    ],
+    assumptions=MIRSYM_ASSUME[:3],
+)
+PROPS["C20"] = dict(
+    title="Alternative access paths agree",
+    technique="bounded model checking (Kani/CBMC, SAT): typed views vs raw bytes with a fully symbolic header argument; by-name lookup with a symbolic query on generated constant files",
+    level_text="Typed views (section_data_as_rels/relas/strtab/notes, segment_data_as_notes): for ALL header values the solver decides refusal with Unexpected{Section,Segment}Type((found, expected)) iff the type differs, and otherwise a view whose "
+               "first entries equal the ABI records decodable from section_data's bytes (notes: NoteIterator over those bytes with the header's alignment). section_header_by_name: for every ASCII query of 0..3 bytes the result is the first section whose name string equals the query "
+               "on a generated file with prefix/suffix/duplicate/empty/non-UTF-8 names.",
+    level_note="Bound: 128-byte constant files for the typed views (header argument symbolic); one generated 9-section file for by-name (section table concrete, query symbolic, ASCII). find_common_data vs targeted accessors and .dynamic vs PT_DYNAMIC: see DESIGN (engine-B extension). usize = 64 bit.",
+    groups=[
+        K("core", ["c20::"], functions=["ElfBytes::section_data_as_{rels,relas,strtab,notes}", "ElfBytes::segment_data_as_notes", "ElfBytes::section_header_by_name", "section_headers_with_strtab", "ParsingIterator::next", "StringTable::get"],
+          bounds="typed views: constant 128-byte files, header argument fully symbolic, first 2 entries; by-name: generated 9-section file, query 0..3 symbolic ASCII bytes; unwind 6/28", timeout_s=1200, jobs=8),
+    ],
+    assumptions=["by-name queries are ASCII (valid UTF-8 by construction)"],
+)
+
+_STUBS = ["std::alloc::alloc -> assert(false)", "std::alloc::alloc_zeroed -> assert(false)", "std::alloc::realloc -> assert(false)"]
+PROPS["C06"] = dict(
+    title="Zero heap allocation; feature matrix",
+    technique="bounded model checking (Kani/CBMC, SAT) with every allocator entry point stubbed by an asserting function: allocation reachability is a solver verdict; feature matrix = build obligations",
+    level_text="The elf crate is compiled with DEFAULT features (where an allocation could compile) and std::alloc::{alloc, alloc_zeroed, realloc} are replaced by stubs that assert false; the solver shows that no path of opening a file, "
+               "every ElfBytes accessor (caller-supplied fully symbolic headers, so corrupted inputs included), lazy tables, string table and note iteration reaches an allocator entry point for any input within the bounds. A witness harness that does allocate must fail (it does). "
+               "The feature-matrix clause has no symbolic variable: each of the 8 subsets of {alloc,std,to_str} must compile, and the --no-default-features rlib must list only core and compiler_builtins as external crates (rustc -Zls).",
+    level_note="Bound: 128-byte constant file with symbolic header arguments; header bytes symbolic for open (<=66 bytes); views on <=24 symbolic bytes. Hash-table and symbol-version lookups under the stub are in the thorough tier. The feature matrix is a build obligation, not a solver verdict (stated in DESIGN).",
+    groups=[
+        K("alloc", ["z::"], functions=["ElfBytes::minimal_parse and every ElfBytes accessor", "ParsingTable::{get,iter}", "StringTable::{get,get_raw}", "NoteIterator::next"], stubs=_STUBS,
+          bounds="constant 128-byte file + fully symbolic SectionHeader/ProgramHeader arguments; open on <=66 symbolic bytes; views on <=24 symbolic bytes", timeout_s=1500, extra_kani=["-Z", "stubbing"], jobs=4),
+        K("alloc", ["zw::"], functions=["witness: Vec::with_capacity under the same stubs must be caught"], stubs=_STUBS, bounds="n in 1..7", timeout_s=300, extra_kani=["-Z", "stubbing"],
+          expect_fail="heap allocation reached"),
+        X("features"),
+    ],
+    assumptions=["allocation is reachable only through std::alloc::{alloc, alloc_zeroed, realloc} (Rust's global allocator API)"],
+)
+PROPS["C19"] = dict(
+    title="ABI definitions agree with the reference",
+    technique="bounded model checking (Kani/CBMC, SAT) over harnesses generated on every run from abi.rs/to_str.rs and glibc's <elf.h>: symbolic-argument None-outside-constants queries; ground constant/layout/name assertions decided on the compiled crate",
+    level_text="Generated from /repo's current sources on every run: (i) for every *_to_str function and a SYMBOLIC argument outside the set of exported constant values of its type the result is None (a real forall over u8/u16/u32/i64); "
+               "(ii) for every constant value the result is None or the identifier of an exported constant with exactly that value and type; (iii) every exported integer constant that glibc's elf.h defines has the reference value; "
+               "(iv) the 16 #[repr(C)] structs have the reference size, alignment and field offsets (offsetof/sizeof evaluated by gcc against elf.h).",
+    level_note="Reference = glibc <elf.h> only (LLVM's headers are not installed); names glibc lacks are skipped and counted in the evidence; EM_ALPHA is excluded because the references disagree among themselves (abi_reference_exclusions.txt). "
+               "(iii)/(iv) are ground facts (no free variable) discharged by constant folding in CBMC; the *_to_string fallback text (format!) is outside the claim.",
+    groups=[
+        K("abi", ["consts::", "layout::", "tostr::"], gen=_gen_abi, functions=["elf::abi::* constants", "elf::to_str::*_to_str", "#[repr(C)] Elf32_*/Elf64_* structs"],
+          bounds="to_str argument fully symbolic (whole u8/u16/u32/i64 domain minus the constant set); ~1085 constants, 16 structs", timeout_s=1200, jobs=8),
+    ],
+    assumptions=["glibc <elf.h> (/usr/include/elf.h) is the reference table", "display-text helpers (*_human_str, note_abi_tag_os_to_str) are only required to return None outside the constant set"],
+)
+
+PROPS["C05"] = dict(
+    title="Header tables located as declared",
+    engine="kani+mirsym",
+    technique="symbolic execution of the MIR of minimal_parse/find_shdrs/find_phdrs and open_stream/parse_*_headers by an own executor, z3 deciding an absolute gABI oracle (L5) and stream==slice (L3); Kani byte-level harness in the thorough tier",
+    level_text="L5: on every path of ElfBytes::minimal_parse with ALL header fields and shdr[0] fields symbolic 64/32/16-bit values and a symbolic file length (no size bound: counts crossing 0xff00/0xffff, tables anywhere, sizes up to 2^64-1), z3 decides: "
+               "Ok => each table is absent iff its offset is 0 and otherwise is exactly [off, off+n*entsize) with n = e_shnum (or shdr[0].sh_size when 0) / e_phnum (or shdr[0].sh_info when 0xffff), declared entsize == the class's structure size, no overflow, inside the file; "
+               "Err => one of those conditions fails. L3: open_stream requests/keeps exactly the same table ranges and succeeds iff minimal_parse does. validate_entsize for all entsize values is decided by Kani in C02; that get(i) is the ABI record at i*entsize is C09.",
+    level_note="The byte->field decoding of the file header and of shdr[0] is an uninterpreted function here (decided byte-exactly by engine A in C02). Scoping: with e_phnum == 0xffff the property presupposes a section table (e_shoff != 0). "
+               "section_headers_with_strtab (SHN_XINDEX) and the sh_entsize gates of symbol/dynamic/version tables: see the engine-B file-level lemmas (thorough).",
+    groups=[
+        M(["L5", "L3"], ["C05.", "L5.", "L3."], bounds="all header fields symbolic (u16/u32/u64), file length symbolic u64; both classes; no unrolling needed (loop-free)"),
+        K("core", ["c05::"], tier="thorough", functions=["ElfBytes::minimal_parse", "find_shdrs", "find_phdrs", "SectionHeaderTable::get", "SegmentTable::get"],
+          bounds="file <= 200 symbolic bytes, ELF64 LE, plain numbering; get(i) compared with the ABI record at off+i*entsize", timeout_s=3300, jobs=2),
+        K("core", ["c05t::"], tier="thorough", functions=["same, extended numbering (e_shnum==0, e_phnum==0xffff), ELF32"], bounds="file <= 200 symbolic bytes", timeout_s=3300, jobs=2),
+    ],
+    assumptions=MIRSYM_ASSUME,
+)
+NOT_APPLICABLE = {}
